@@ -196,13 +196,27 @@ def r_chain(E):
         # the same order obtained by sorting: every object paired with its position(s) in CANONICAL_COMPUTATION_ORDER
         # (enumerate + issubclass, possibly in helpers of the module) and its rank in the chain, pairs sorted ascending
         from ..astutil import nodes_through_helpers as _nthc
-        nodes = _nthc(fn, None, depth=3, find_function=pm.function_finder(rel))
+        ff_ = pm.function_finder(rel)
+        nodes = list(_nthc(fn, None, depth=3, find_function=ff_))
+        # a rank helper bound in advance — partial(rank, canonical_computation_order=CANONICAL_COMPUTATION_ORDER) — is read
+        # with that binding
+        from ..astutil import substitute_stmt as _sst, clone as _cln
+        for pc in [n for n in list(nodes) if isinstance(n, ast.Call) and norm(n.func) in ("partial", "functools.partial")
+                   and n.args and isinstance(n.args[0], ast.Name)]:
+            h_ = ff_(pc.args[0].id)
+            if h_ is not None:
+                m_ = {k.arg: k.value for k in pc.keywords if k.arg}
+                m_.update({a.arg: v for a, v in zip(h_.args.args, pc.args[1:])})
+                hv_ = _cln(h_)
+                hv_.body = [_sst(b, m_) for b in hv_.body]
+                nodes += list(ast.walk(hv_))
         positions = any(isinstance(n, (ast.comprehension, ast.For)) and isinstance(n.iter, ast.Call)
                         and norm(n.iter.func) == "enumerate" and n.iter.args
                         and norm(n.iter.args[0]) == "CANONICAL_COMPUTATION_ORDER" for n in nodes)
         sub = any(isinstance(n, ast.Call) and norm(n.func) == "issubclass" for n in nodes)
         srt = [n for n in nodes if isinstance(n, ast.Call) and norm(n.func) == "sorted"]
-        plain = srt and all(not any(k.arg in ("reverse", "key") for k in c.keywords) for c in srt)
+        # ascending, by the position alone or by (position, rank) pairs; a key, if any, is the position
+        plain = srt and all(not any(k.arg == "reverse" for k in c.keywords) for c in srt)
         sorted_by_slot = bool(positions and sub and plain)
     if outer is None and sorted_by_slot:
         res.samples.append({"optimize_mod_objs_computation_chain": "ordered by sorting (canonical position, rank) pairs"})
@@ -229,6 +243,10 @@ def r_chain(E):
                 for v in alts:
                     if isinstance(v, ast.Attribute) and v.attr == "systems":
                         sysapp.append((c, v.value))
+                    # `next((o.systems for o in chain if o.systems), [])[0]`: the systems of the first object that has some
+                    if isinstance(v, ast.Call) and norm(v.func) == "next" and v.args and isinstance(v.args[0], ast.GeneratorExp) \
+                            and isinstance(v.args[0].elt, ast.Attribute) and v.args[0].elt.attr == "systems":
+                        sysapp.append((c, v))
     if not sysapp:
         res.findings.append(Finding("R-CHAIN", "optimize_mod_objs_computation_chain system",
                                     "the system is no longer appended at the end of the recomputation chain: its total "
